@@ -54,9 +54,25 @@ class C19(Prop):
                   "histogram = values recorded since the previous snapshot, and over a whole history every recorded value appears in "
                   "exactly one snapshot (the next one) or is still pending; description = latest, unit = latest given; a recorder's "
                   "snapshots depend only on the operations issued to it. The model is tied to /repo by running the real "
-                  "DebuggingRecorder and the model on the same generated histories each run (histogram values compared as bags).")
-    level_note = ("The Coq theorems and the differential cases are about SEQUENTIAL histories (operations issued one at a time). Concurrent "
-                  "record-vs-snapshot is covered by test only: a free-running stress engine (real threads, no scheduler; 1-3 recorder threads "
+                  "DebuggingRecorder and the model on the same generated histories each run (histogram values compared as bags). "
+                  "Concurrent use (C19_conc_*, coq/C19/Conc*.v): an interleaving model on Common/Interleave.v -- threads of register / update / "
+                  "snapshot operations on one recorder, atomic steps track (seen.insert), get_or_create, one update (RMW or bucket push), collect "
+                  "handles, clone seen, one load or one drain per visited key, return -- for which, for EVERY schedule, any number of threads and "
+                  "operations: per histogram the lists shown by its successive drains followed by what is still in the bucket are exactly the values "
+                  "whose record step happened, each once, in step order (conservation; no duplicate, no invention); a drain shows exactly what was "
+                  "recorded after the previous drain of that key; a counter/gauge reading is the fold of the updates whose step preceded the load; "
+                  "every snapshot entry is the value of such a step; a key whose get_or_create step precedes a snapshot's first step is listed by "
+                  "it, no two entries are equal keys, entries are in first-registration (track-step) order.")
+    level_note = ("The model tied to the code by differential execution is the SEQUENTIAL one (operations issued one at a time). The interleaving "
+                  "model (Conc*.v) is a SEPARATE model at the granularity of the code's correctness argument and ASSUMES two facts it does not prove: "
+                  "(i) from C06, Registry::get_or_create_* is atomic and hands every caller the one storage per (kind, key), never replaced (so a "
+                  "handle is identified with its key); (ii) from C05, AtomicBucket push and clear_with are linearizable -- which C05 proves only "
+                  "OUTSIDE its open late-claim class: in the code a push that loaded the tail before a concurrent clear_with detached it can be "
+                  "lost, so C19_conc_conservation holds for the code only up to those losses (at most one in-flight record per recorder thread per "
+                  "drain; reported as C19-concurrent-drain-inherits-C05-late-claim). It also takes the three per-kind handle collections of "
+                  "snapshot() as one step and omits describe/metadata. There are no yield points inside DebuggingRecorder and no schedule replay: "
+                  "like C11's Wake.v, this model is tied to the code by the two free-running stress engines only, which sample schedules. "
+                  "Concurrent record-vs-snapshot on the code: a free-running stress engine (real threads, no scheduler; 1-3 recorder threads "
                   "recording distinct tagged values into 1-2 histograms of one recorder while the main thread takes 20-50 paced snapshots, "
                   ">= 2.6 million values per quick run) judged by the property: a value shown twice, a value never recorded, or a wrong "
                   "final counter/gauge is always a violation; values never shown are tolerated only up to recorder threads x histograms x "
